@@ -197,8 +197,8 @@ def run_stub(case, acc):
     ws = StubWS(case['outcomes'])
     ex = ExitEvent(case['exit_at'])
     rr = RecordedRandom(case['rseed'], case['mode'])
-    saved = lomond.persist.random
-    lomond.persist.random = rr
+    saved = env.HOOKS['random']
+    env.HOOKS['random'] = rr
     got = []
     ended = False
     exc = None
@@ -214,7 +214,7 @@ def run_stub(case, acc):
             exc = repr(e)
         g.close()
     finally:
-        lomond.persist.random = saved
+        env.HOOKS['random'] = saved
     acc.count2('oracle', 'attempts', len(ws.calls))
     ready_flags = [any(e.name == 'ready' for e in evs) for evs in ws.produced]
     key, detail = None, None
@@ -286,8 +286,8 @@ def run_sim(case, acc):
             w.faults[('getaddrinfo', a)] = 'gai'
     ex = ExitEvent(case['exit_at'])
     rr = RecordedRandom(case['rseed'], 'rand')
-    saved = lomond.persist.random
-    lomond.persist.random = rr
+    saved = env.HOOKS['random']
+    env.HOOKS['random'] = rr
     got = []
     inner = []
     ended = False
@@ -332,7 +332,7 @@ def run_sim(case, acc):
                 exc = repr(e)
             g.close()
     finally:
-        lomond.persist.random = saved
+        env.HOOKS['random'] = saved
     acc.count2('oracle', 'sim_passthrough_runs')
     acc.count2('oracle', 'attempts', len(inner))
     key, detail = None, None
@@ -363,7 +363,7 @@ def run_sim(case, acc):
 def run_default_event(case, acc):
     """exit_event=None: persist creates its own threading.Event and must keep going"""
     ws = StubWS(['connect_fail'])
-    saved = lomond.persist.random
+    saved = env.HOOKS['random']
     saved_thr = lomond.persist.threading
     waits = []
 
@@ -374,7 +374,7 @@ def run_default_event(case, acc):
 
     class Thr(object):
         Event = Ev
-    lomond.persist.random = lambda: 0.0
+    env.HOOKS['random'] = lambda: 0.0
     lomond.persist.threading = Thr
     got = []
     ended = False
@@ -387,7 +387,7 @@ def run_default_event(case, acc):
             ended = True
         g.close()
     finally:
-        lomond.persist.random = saved
+        env.HOOKS['random'] = saved
         lomond.persist.threading = saved_thr
     acc.count2('oracle', 'attempts', len(ws.calls))
     if ended or not waits:
